@@ -1,98 +1,1659 @@
+//! C08 — rolling back to a checkpoint restores exactly the checkpointed database.
+//!
+//! Technique: record-and-compare on the REAL `QueryRouter`. Everything the oracle judges goes through
+//! `QueryRouter::execute_parsed` (CHECKPOINT, ROLLBACK TO, CHECKPOINTS and the read statements).
+//!
+//! One case = one program ("script") run on a fresh router:
+//!   random relational / graph / vector statements, `CHECKPOINT` (named or unnamed), more statements,
+//!   further checkpoints, `ROLLBACK TO` any still-listed checkpoint (by id or by name), a battery of
+//!   writes that must work on a healthy database, more statements, further cycles (incl. rolling back
+//!   to the same checkpoint again).
+//!
+//! Oracles
+//!   * observation vector: a fixed list of read statements (SHOW TABLES, SELECT per table with scan /
+//!     equality on the indexable column `a` / equality on the never-indexed column `b` / range /
+//!     COUNT(*), DESCRIBE, NODE GET / NEIGHBORS x3 / EDGE GET for every id 1..=48, NODE LIST, EDGE LIST,
+//!     FIND NODE/EDGE, CONSTRAINT LIST, GRAPH INDEX SHOW, EMBED GET per key, SIMILAR by vector (3 metrics)
+//!     and by key, COUNT/SHOW EMBEDDINGS) is recorded right after `CHECKPOINT c` returns and must be
+//!     answered identically right after `ROLLBACK TO c` returns (sets compared as sets; SIMILAR compared
+//!     on exact scores and on keys except inside a score tie that the LIMIT cuts).
+//!   * usable afterwards: after a rollback, INSERT / UPDATE / DELETE / CREATE TABLE / CREATE INDEX /
+//!     NODE CREATE / EDGE CREATE / EMBED STORE must succeed, be visible through scan and equality reads,
+//!     and leave every other row / node / edge as it was.
+//!   * checkpoint list: `ROLLBACK TO` is not a retention event — the set listed by `CHECKPOINTS` must be the
+//!     same before and after it; a created checkpoint is listed; a listed checkpoint can be restored.
+//!   * retention (part "retention", creations >= 1.1 s apart because stamps have 1 s granularity): with
+//!     max N the listed set after every creation is exactly the last min(i, N) created, and each of them
+//!     can be rolled back to with its recorded observation vector.
+//!
+//! Variants per case (drawn from the case seed): auto-checkpoints on/off, 4-dim or 384-dim vectors,
+//! router query cache on (relational statements only), HNSW cache built after the checkpoint.
+
+use common::*;
 use query_router::{QueryResult, QueryRouter};
+use serde::{Deserialize, Serialize};
+use serde_json::{json, Value};
+use std::collections::{BTreeMap, BTreeSet, HashMap};
+use std::time::{Duration, Instant};
 use tensor_checkpoint::CheckpointConfig;
 
-fn run(r: &QueryRouter, s: &str) -> String {
-    let t = std::time::Instant::now();
-    let out = match r.execute_parsed(s) {
-        Ok(QueryResult::Rows(rows)) => {
-            let mut v: Vec<String> = rows.iter().map(|r| format!("{}:{:?}", r.id, r.values)).collect();
-            v.sort();
-            format!("Rows{:?}", v)
+const NODE_MAX: u64 = 48;
+const EDGE_MAX: u64 = 48;
+const NODE_GEN_CAP: u64 = 36;
+const EDGE_GEN_CAP: u64 = 36;
+const TABLES: [&str; 4] = ["t0", "t1", "t2", "t3"];
+const LABELS: [&str; 3] = ["person", "city", "thing"];
+const ETYPES: [&str; 2] = ["knows", "likes"];
+const NKEYS: usize = 8;
+/// total number of checkpoints (manual + automatic) per program: every checkpoint image contains all
+/// earlier checkpoint images (they live in the store that is snapshotted), so sizes double per checkpoint
+const CP_TOTAL_CAP: usize = 9;
+
+// ------------------------------------------------------------------------------------------------
+// script
+// ------------------------------------------------------------------------------------------------
+
+#[derive(Clone, Debug, Serialize, Deserialize, PartialEq)]
+enum Item {
+    /// a statement whose own result is not judged
+    S(String),
+    /// CHECKPOINT ['cp<label>'] + record the observation vector
+    Cp { label: u32, named: bool },
+    /// ROLLBACK TO <checkpoint label> + compare
+    Rb { label: u32, by_id: bool },
+    /// writes that must work
+    Battery,
+    /// VectorEngine::build_and_cache_index (set-up call, not an observation)
+    Hnsw,
+    Sleep(u64),
+}
+
+impl Item {
+    fn text(&self) -> String {
+        match self {
+            Item::S(s) => s.clone(),
+            Item::Cp { label, named } => {
+                if *named {
+                    format!("CHECKPOINT 'cp{}'", label)
+                } else {
+                    format!("CHECKPOINT            -- (unnamed; referred to as cp{})", label)
+                }
+            }
+            Item::Rb { label, by_id } => format!("ROLLBACK TO {}", if *by_id { format!("'<id of cp{}>'", label) } else { format!("'cp{}'", label) }),
+            Item::Battery => "-- battery: INSERT/UPDATE/DELETE/CREATE TABLE/CREATE INDEX/NODE CREATE/EDGE CREATE/EMBED STORE must work".into(),
+            Item::Hnsw => "-- router.vector().build_and_cache_index(HNSWConfig::default())".into(),
+            Item::Sleep(ms) => format!("-- sleep {} ms", ms),
         }
-        Ok(x) => format!("{:?}", x),
-        Err(e) => format!("ERR {}", e),
+    }
+}
+
+#[derive(Clone, Debug, Serialize, Deserialize)]
+struct Cfg {
+    auto_cp: bool,
+    qcache: bool,
+    dim: usize,
+    max_cp: usize,
+    /// creations are >= 1.1 s apart, so the listed set must be exactly the newest max_cp
+    strict_retention: bool,
+    hnsw: bool,
+}
+
+// ------------------------------------------------------------------------------------------------
+// canonical answers
+// ------------------------------------------------------------------------------------------------
+
+#[derive(Clone, Debug, PartialEq)]
+enum Ans {
+    /// order-insensitive collection of canonical item strings (sorted)
+    Items(Vec<String>),
+    /// similarity list in the order returned
+    Sim(Vec<(String, f32)>),
+    Err(String),
+}
+
+fn kv_sorted<'a, I: Iterator<Item = (&'a String, &'a String)>>(it: I) -> String {
+    let mut v: Vec<String> = it.map(|(k, v)| format!("{}={}", k, v)).collect();
+    v.sort();
+    v.join(",")
+}
+
+fn canon(r: &Result<QueryResult, String>) -> Ans {
+    let q = match r {
+        Err(e) => return Ans::Err(e.lines().next().unwrap_or("").to_string()),
+        Ok(q) => q,
     };
-    println!("{:>8.1}ms  {}  =>  {}", t.elapsed().as_secs_f64() * 1e3, s, out.chars().take(400).collect::<String>());
-    out
+    let mut items: Vec<String> = match q {
+        QueryResult::Empty => vec![],
+        QueryResult::Value(s) => {
+            if let Some(rest) = s.strip_prefix("Embeddings: [") {
+                // scan order of a hash map: compare as a set
+                rest.split('"').enumerate().filter(|(i, _)| i % 2 == 1).map(|(_, k)| k.to_string()).collect()
+            } else {
+                vec![s.clone()]
+            }
+        }
+        QueryResult::Count(n) => vec![n.to_string()],
+        QueryResult::Ids(v) => v.iter().map(|x| format!("{:08}", x)).collect(),
+        QueryResult::Rows(rows) => rows
+            .iter()
+            .map(|r| {
+                let mut vs: Vec<String> = r.values.iter().map(|(k, v)| format!("{}={:?}", k, v)).collect();
+                vs.sort();
+                format!("{:08}|{}", r.id, vs.join(","))
+            })
+            .collect(),
+        QueryResult::Nodes(ns) => ns.iter().map(|n| format!("{:08}|{}|{}", n.id, n.label, kv_sorted(n.properties.iter()))).collect(),
+        QueryResult::Edges(es) => es.iter().map(|e| format!("{:08}|{}->{}|{}", e.id, e.from, e.to, e.label)).collect(),
+        QueryResult::Similar(v) => return Ans::Sim(v.iter().map(|s| (s.key.clone(), s.score)).collect()),
+        QueryResult::Unified(u) => u
+            .items
+            .iter()
+            .map(|it| format!("{}|{}|{}|{:?}", it.source, it.id, kv_sorted(it.data.iter()), it.score))
+            .chain(std::iter::once(format!("desc:{}", u.description)))
+            .collect(),
+        QueryResult::TableList(v) => v.clone(),
+        QueryResult::GraphIndexes(v) => v.clone(),
+        QueryResult::Constraints(v) => v.iter().map(|c| format!("{}|{}|{}|{}", c.name, c.target, c.property, c.constraint_type)).collect(),
+        other => vec![format!("{:?}", other)],
+    };
+    items.sort();
+    Ans::Items(items)
+}
+
+fn short(a: &Ans) -> String {
+    let s = match a {
+        Ans::Items(v) => format!("{:?}", v),
+        Ans::Sim(v) => format!("Similar{:?}", v),
+        Ans::Err(e) => format!("ERROR({})", e),
+    };
+    if s.chars().count() > 420 {
+        format!("{}…(+{} chars)", s.chars().take(420).collect::<String>(), s.chars().count() - 420)
+    } else {
+        s
+    }
+}
+
+/// `None` if the two answers agree under the rule of their class, otherwise the nature of the difference
+fn differ(rec: &Ans, now: &Ans, limit: Option<usize>) -> Option<&'static str> {
+    match (rec, now) {
+        (Ans::Err(a), Ans::Err(b)) => (a != b).then_some("error-changed"),
+        (Ans::Err(_), _) => Some("was-error-now-answers"),
+        (_, Ans::Err(_)) => Some("answered-now-error"),
+        (Ans::Items(a), Ans::Items(b)) => {
+            if a == b {
+                return None;
+            }
+            let sa: BTreeSet<&String> = a.iter().collect();
+            let sb: BTreeSet<&String> = b.iter().collect();
+            let lost = sa.difference(&sb).count();
+            let extra = sb.difference(&sa).count();
+            Some(match (lost > 0, extra > 0) {
+                (true, false) => "lost",
+                (false, true) => "extra",
+                _ => "changed",
+            })
+        }
+        (Ans::Sim(a), Ans::Sim(b)) => {
+            if a.len() != b.len() {
+                return Some(if a.len() > b.len() { "lost" } else { "extra" });
+            }
+            for (x, y) in a.iter().zip(b.iter()) {
+                if !f32_same(x.1, y.1) {
+                    return Some("changed");
+                }
+            }
+            // keys: compare per score group; a group cut by LIMIT may legitimately differ
+            let truncated = limit.map_or(false, |l| a.len() >= l);
+            let mut i = 0;
+            while i < a.len() {
+                let mut j = i;
+                while j < a.len() && f32_same(a[j].1, a[i].1) {
+                    j += 1;
+                }
+                let last_group = j == a.len();
+                if !(last_group && truncated) {
+                    let ka: BTreeSet<&String> = a[i..j].iter().map(|x| &x.0).collect();
+                    let kb: BTreeSet<&String> = b[i..j].iter().map(|x| &x.0).collect();
+                    if ka != kb {
+                        return Some("changed");
+                    }
+                }
+                i = j;
+            }
+            None
+        }
+        _ => Some("changed"),
+    }
+}
+
+// ------------------------------------------------------------------------------------------------
+// observation vector
+// ------------------------------------------------------------------------------------------------
+
+#[derive(Clone, Debug)]
+struct Q {
+    class: &'static str,
+    text: String,
+    limit: Option<usize>,
+}
+
+fn fmt_f(x: f32) -> String {
+    format!("{:?}", x)
+}
+fn vec_text(v: &[f32]) -> String {
+    format!("[{}]", v.iter().map(|x| fmt_f(*x)).collect::<Vec<_>>().join(", "))
+}
+fn rand_vec(rng: &mut Rng, dim: usize) -> Vec<f32> {
+    let mut v: Vec<f32> = (0..dim).map(|_| if dim > 16 && rng.chance(3, 4) { 0.0 } else { rng.below(17) as f32 / 8.0 }).collect();
+    if v.iter().all(|x| *x == 0.0) {
+        v[0] = 1.0;
+    }
+    v
+}
+
+fn rel_queries() -> Vec<Q> {
+    let mut qs = Vec::new();
+    qs.push(Q { class: "show-tables", text: "SHOW TABLES".into(), limit: None });
+    for t in TABLES {
+        qs.push(Q { class: "select-scan", text: format!("SELECT * FROM {}", t), limit: None });
+        qs.push(Q { class: "describe-table", text: format!("DESCRIBE TABLE {}", t), limit: None });
+        for v in 0..=5 {
+            qs.push(Q { class: "select-eq-on-indexable-column", text: format!("SELECT * FROM {} WHERE a = {}", t, v), limit: None });
+        }
+        for s in ["x", "y", "q"] {
+            qs.push(Q { class: "select-eq-on-unindexed-column", text: format!("SELECT * FROM {} WHERE b = '{}'", t, s), limit: None });
+        }
+        qs.push(Q { class: "select-range", text: format!("SELECT * FROM {} WHERE a > 2", t), limit: None });
+        qs.push(Q { class: "select-range", text: format!("SELECT a FROM {} WHERE a <= 3", t), limit: None });
+        qs.push(Q { class: "select-count", text: format!("SELECT COUNT(*) FROM {}", t), limit: None });
+    }
+    qs
+}
+
+fn all_queries(cfg: &Cfg) -> Vec<Q> {
+    let mut qs = rel_queries();
+    if cfg.qcache {
+        // with the router's query cache on, only relational statements are used (the cache is not
+        // invalidated by graph / vector writes at all, which is outside this property)
+        return qs;
+    }
+    for i in 1..=NODE_MAX {
+        qs.push(Q { class: "node-get", text: format!("NODE GET {}", i), limit: None });
+        qs.push(Q { class: "neighbors", text: format!("NEIGHBORS {} OUTGOING", i), limit: None });
+        qs.push(Q { class: "neighbors", text: format!("NEIGHBORS {} INCOMING", i), limit: None });
+        qs.push(Q { class: "neighbors", text: format!("NEIGHBORS {} BOTH", i), limit: None });
+    }
+    for i in 1..=EDGE_MAX {
+        qs.push(Q { class: "edge-get", text: format!("EDGE GET {}", i), limit: None });
+    }
+    qs.push(Q { class: "node-list", text: "NODE LIST".into(), limit: None });
+    qs.push(Q { class: "node-list", text: "NODE LIST person".into(), limit: None });
+    qs.push(Q { class: "edge-list", text: "EDGE LIST".into(), limit: None });
+    qs.push(Q { class: "edge-list", text: "EDGE LIST knows".into(), limit: None });
+    qs.push(Q { class: "find-node", text: "FIND NODE city".into(), limit: None });
+    qs.push(Q { class: "find-edge", text: "FIND EDGE likes".into(), limit: None });
+    qs.push(Q { class: "graph-constraint-list", text: "CONSTRAINT LIST".into(), limit: None });
+    qs.push(Q { class: "graph-index-show", text: "GRAPH INDEX SHOW ON NODE".into(), limit: None });
+    qs.push(Q { class: "graph-index-show", text: "GRAPH INDEX SHOW ON EDGE".into(), limit: None });
+    for k in 0..NKEYS {
+        qs.push(Q { class: "embed-get", text: format!("EMBED GET 'k{}'", k), limit: None });
+    }
+    let mut rng = Rng::new(0xC08 + cfg.dim as u64);
+    for j in 0..3 {
+        let v = rand_vec(&mut rng, cfg.dim);
+        let metric = ["COSINE", "EUCLIDEAN", "DOT_PRODUCT"][j];
+        for lim in [3usize, 20] {
+            qs.push(Q { class: "similar", text: format!("SIMILAR {} LIMIT {} {}", vec_text(&v), lim, metric), limit: Some(lim) });
+        }
+    }
+    for k in [0usize, 3] {
+        qs.push(Q { class: "similar", text: format!("SIMILAR 'k{}' LIMIT 4", k), limit: Some(4) });
+    }
+    qs.push(Q { class: "count-embeddings", text: "COUNT EMBEDDINGS".into(), limit: None });
+    qs.push(Q { class: "show-embeddings", text: "SHOW EMBEDDINGS".into(), limit: None });
+    qs
+}
+
+// ------------------------------------------------------------------------------------------------
+// runner
+// ------------------------------------------------------------------------------------------------
+
+#[derive(Clone, Debug)]
+struct Viol {
+    sig: String,
+    detail: String,
+    /// index of the script item during which it was found
+    at: usize,
+}
+
+struct CpRec {
+    id: String,
+    name: String,
+    obs: Vec<Ans>,
+    sim_exact: bool,
+    /// a write succeeded since this checkpoint was taken (for the non-triviality rule)
+    nonempty: bool,
+}
+
+#[derive(Clone, Debug)]
+struct Listed {
+    id: String,
+    name: String,
+    auto: bool,
+}
+
+/// what the statement source may look at
+struct View {
+    listed_labels: Vec<u32>,
+    newest_label: Option<u32>,
+    cps_total: usize,
+    node_hi: u64,
+    edge_hi: u64,
+}
+
+trait Source {
+    fn next(&mut self, view: &View) -> Option<Item>;
+    /// result of an `Item::S` just executed, and rollbacks that happened
+    fn fed(&mut self, _item: &Item, _res: Option<&Result<QueryResult, String>>) {}
+}
+
+struct Fixed {
+    items: Vec<Item>,
+    pos: usize,
+}
+impl Source for Fixed {
+    fn next(&mut self, _v: &View) -> Option<Item> {
+        let it = self.items.get(self.pos).cloned();
+        self.pos += 1;
+        it
+    }
+}
+
+struct Runner {
+    cfg: Cfg,
+    router: QueryRouter,
+    queries: Vec<Q>,
+    recs: HashMap<u32, CpRec>,
+    /// checkpoints that must currently be listed, oldest first
+    expected: Vec<Listed>,
+    label_of: HashMap<String, u32>,
+    cps_total: usize,
+    node_hi: u64,
+    edge_hi: u64,
+    hnsw_live: bool,
+    bat_n: u32,
+    viols: Vec<Viol>,
+    counters: BTreeMap<String, u64>,
+    log: Vec<Item>,
+    trace: bool,
+    nontrivial_rollbacks: u64,
+    last_rb: Option<u32>,
+}
+
+fn count(c: &mut BTreeMap<String, u64>, k: &str, n: u64) {
+    *c.entry(k.to_string()).or_insert(0) += n;
+}
+
+fn names(ls: &[Listed], label_of: &HashMap<String, u32>) -> Vec<String> {
+    ls.iter()
+        .map(|l| label_of.get(&l.id).map(|x| format!("cp{}", x)).unwrap_or_else(|| if l.auto { format!("auto:{}", l.name) } else { format!("?{}", l.name) }))
+        .collect()
+}
+
+impl Runner {
+    fn new(cfg: &Cfg, trace: bool) -> Result<Runner, String> {
+        let mut router = QueryRouter::new();
+        router.init_blob().map_err(|e| format!("init_blob: {}", e))?;
+        router
+            .init_checkpoint_with_config(CheckpointConfig::default().with_max_checkpoints(cfg.max_cp).with_auto_checkpoint(cfg.auto_cp))
+            .map_err(|e| format!("init_checkpoint: {}", e))?;
+        if cfg.qcache {
+            router.init_cache();
+        }
+        Ok(Runner {
+            cfg: cfg.clone(),
+            router,
+            queries: all_queries(cfg),
+            recs: HashMap::new(),
+            expected: Vec::new(),
+            label_of: HashMap::new(),
+            cps_total: 0,
+            node_hi: 0,
+            edge_hi: 0,
+            hnsw_live: false,
+            bat_n: 0,
+            viols: Vec::new(),
+            counters: BTreeMap::new(),
+            log: Vec::new(),
+            trace,
+            nontrivial_rollbacks: 0,
+            last_rb: None,
+        })
+    }
+
+    fn exec(&mut self, s: &str) -> Result<QueryResult, String> {
+        let r = self.router.execute_parsed(s).map_err(|e| e.to_string());
+        if self.trace {
+            let shown: String = s.chars().take(160).collect();
+            eprintln!("    {}\n        => {}", shown, short(&canon(&r)));
+        }
+        r
+    }
+
+    fn viol(&mut self, sig: impl Into<String>, detail: impl Into<String>) {
+        let at = self.log.len().saturating_sub(1);
+        let sig = sig.into();
+        let detail = detail.into();
+        if self.trace {
+            eprintln!("!!! VIOLATION {} at item {}: {}", sig, at, detail);
+        }
+        self.viols.push(Viol { sig, detail, at });
+    }
+
+    fn observe(&mut self) -> Vec<Ans> {
+        let qs = std::mem::take(&mut self.queries);
+        let out: Vec<Ans> = qs
+            .iter()
+            .map(|q| {
+                let r = self.router.execute_parsed(&q.text).map_err(|e| e.to_string());
+                canon(&r)
+            })
+            .collect();
+        count(&mut self.counters, "observation_queries_executed", qs.len() as u64);
+        self.queries = qs;
+        out
+    }
+
+    fn list(&mut self) -> Result<Vec<Listed>, String> {
+        match self.exec("CHECKPOINTS LIMIT 1000") {
+            Ok(QueryResult::CheckpointList(v)) => Ok(v.into_iter().map(|c| Listed { id: c.id, name: c.name, auto: c.is_auto }).collect()),
+            Ok(o) => Err(format!("unexpected result {:?}", o)),
+            Err(e) => Err(e),
+        }
+    }
+
+    fn view(&self) -> View {
+        let listed_labels: Vec<u32> = self.expected.iter().filter_map(|l| self.label_of.get(&l.id).copied()).filter(|l| self.recs.contains_key(l)).collect();
+        View { newest_label: listed_labels.last().copied(), listed_labels, cps_total: self.cps_total, node_hi: self.node_hi, edge_hi: self.edge_hi }
+    }
+
+    /// learn automatic checkpoints created by destructive statements (they are listed with is_auto)
+    fn absorb_auto(&mut self, listed: &[Listed]) {
+        // `listed` is newest first
+        for l in listed.iter().rev() {
+            if l.auto && !self.expected.iter().any(|e| e.id == l.id) {
+                self.expected.push(l.clone());
+                self.cps_total += 1;
+                count(&mut self.counters, "auto_checkpoints_seen", 1);
+            }
+        }
+    }
+
+    fn mark_write(&mut self) {
+        for rec in self.recs.values_mut() {
+            rec.nonempty = true;
+        }
+    }
+
+    fn do_stmt(&mut self, s: &str) -> Result<QueryResult, String> {
+        let r = self.exec(s);
+        let up = s.trim_start().to_ascii_uppercase();
+        let is_read = up.starts_with("SELECT") || up.starts_with("NEIGHBORS") || up.starts_with("SIMILAR") || up.starts_with("SHOW") || up.contains(" GET ") || up.contains(" LIST");
+        match &r {
+            Ok(q) => {
+                count(&mut self.counters, "statements_ok", 1);
+                if !is_read {
+                    self.mark_write();
+                    count(&mut self.counters, "write_statements_ok", 1);
+                    let engine = if up.starts_with("NODE") || up.starts_with("EDGE") || up.starts_with("CONSTRAINT") || up.starts_with("GRAPH") {
+                        "graph"
+                    } else if up.starts_with("EMBED") {
+                        "vector"
+                    } else {
+                        "relational"
+                    };
+                    count(&mut self.counters, &format!("write_statements_ok[{}]", engine), 1);
+                }
+                if let QueryResult::Ids(ids) = q {
+                    if up.starts_with("NODE CREATE") {
+                        self.node_hi = self.node_hi.max(ids.iter().copied().max().unwrap_or(0));
+                    } else if up.starts_with("EDGE CREATE") {
+                        self.edge_hi = self.edge_hi.max(ids.iter().copied().max().unwrap_or(0));
+                    }
+                }
+                if up.starts_with("EMBED STORE") || up.starts_with("EMBED DELETE") || up.starts_with("EMBED BATCH") {
+                    self.hnsw_live = false;
+                }
+            }
+            Err(_) => count(&mut self.counters, "statements_err", 1),
+        }
+        r
+    }
+
+    fn do_checkpoint(&mut self, label: u32, named: bool) {
+        if self.recs.contains_key(&label) {
+            return;
+        }
+        let text = if named { format!("CHECKPOINT 'cp{}'", label) } else { "CHECKPOINT".to_string() };
+        // automatic checkpoints made since the last look
+        if self.cfg.auto_cp {
+            if let Ok(l) = self.list() {
+                self.absorb_auto(&l);
+            }
+        }
+        let id = match self.exec(&text) {
+            Ok(QueryResult::Value(s)) => match s.strip_prefix("Checkpoint created: ") {
+                Some(id) => id.trim().to_string(),
+                None => {
+                    self.viol("checkpoint:create-unexpected-result", format!("`{}` returned Value({:?})", text, s));
+                    return;
+                }
+            },
+            Ok(o) => {
+                self.viol("checkpoint:create-unexpected-result", format!("`{}` returned {:?}", text, o));
+                return;
+            }
+            Err(e) => {
+                self.viol("checkpoint:create-failed", format!("`{}` failed: {}", text, e));
+                return;
+            }
+        };
+        // record first: "at the moment the checkpoint was taken"
+        let obs = self.observe();
+        count(&mut self.counters, "checkpoints_created", 1);
+        self.cps_total += 1;
+        self.label_of.insert(id.clone(), label);
+        let listed = match self.list() {
+            Ok(l) => l,
+            Err(e) => {
+                self.viol("checkpoints:list-failed", format!("CHECKPOINTS failed after `{}`: {}", text, e));
+                return;
+            }
+        };
+        let name = listed.iter().find(|l| l.id == id).map(|l| l.name.clone()).unwrap_or_else(|| if named { format!("cp{}", label) } else { String::new() });
+        self.expected.push(Listed { id: id.clone(), name: name.clone(), auto: false });
+        if self.cfg.strict_retention {
+            while self.expected.len() > self.cfg.max_cp {
+                self.expected.remove(0);
+            }
+        }
+        let want: BTreeSet<&String> = self.expected.iter().map(|l| &l.id).collect();
+        let have: BTreeSet<&String> = listed.iter().map(|l| &l.id).collect();
+        count(&mut self.counters, "list_checks", 1);
+        if want != have {
+            let missing: Vec<Listed> = self.expected.iter().filter(|l| !have.contains(&l.id)).cloned().collect();
+            let surplus: Vec<Listed> = listed.iter().filter(|l| !want.contains(&l.id)).cloned().collect();
+            let d = format!(
+                "after `{}` (max_checkpoints = {}): CHECKPOINTS lists {:?} (newest first); expected {:?} (oldest first); missing {:?}, not expected {:?}",
+                text,
+                self.cfg.max_cp,
+                names(&listed, &self.label_of),
+                names(&self.expected, &self.label_of),
+                names(&missing, &self.label_of),
+                names(&surplus, &self.label_of)
+            );
+            if self.cfg.strict_retention {
+                let sig = if listed.len() != self.expected.len() {
+                    "retention:wrong-number-retained"
+                } else if missing.iter().any(|m| m.id == id) {
+                    "retention:newest-checkpoint-not-retained"
+                } else {
+                    "retention:retained-set-is-not-the-newest-N"
+                };
+                self.viol(sig, d);
+            } else if !missing.is_empty() {
+                self.viol(if missing.iter().any(|m| m.id == id) { "checkpoints:created-checkpoint-not-listed" } else { "checkpoints:earlier-checkpoint-vanished-without-retention" }, d);
+            } else {
+                self.viol("checkpoints:unknown-checkpoint-listed", d);
+            }
+            // continue from what is really there
+            self.expected = listed.iter().rev().cloned().collect();
+        } else if self.cfg.strict_retention {
+            count(&mut self.counters, "retention_list_checks_passed", 1);
+        }
+        self.recs.insert(label, CpRec { id, name, obs, sim_exact: !self.hnsw_live, nonempty: false });
+    }
+
+    fn do_rollback(&mut self, label: u32, by_id: bool) {
+        let (id, name) = match self.recs.get(&label) {
+            Some(r) => (r.id.clone(), r.name.clone()),
+            None => {
+                count(&mut self.counters, "rollback_skipped_unknown_label", 1);
+                return;
+            }
+        };
+        let pre = match self.list() {
+            Ok(l) => l,
+            Err(e) => {
+                self.viol("checkpoints:list-failed", format!("CHECKPOINTS failed: {}", e));
+                return;
+            }
+        };
+        self.absorb_auto(&pre);
+        if !pre.iter().any(|l| l.id == id) {
+            // lost through an earlier (already reported) list defect, or evicted by retention
+            count(&mut self.counters, "rollback_skipped_not_listed", 1);
+            return;
+        }
+        let name_unique = !name.is_empty() && pre.iter().filter(|l| l.name == name).count() == 1 && !pre.iter().any(|l| l.id == name);
+        let target = if by_id || !name_unique { id.clone() } else { name.clone() };
+        let text = format!("ROLLBACK TO '{}'", target);
+        let newest_before = self.view().newest_label;
+        if let Err(e) = self.exec(&text) {
+            self.viol(
+                "rollback:listed-checkpoint-cannot-be-restored",
+                format!("`{}` (cp{}, listed by CHECKPOINTS immediately before) failed: {}", text, label, e),
+            );
+            return;
+        }
+        count(&mut self.counters, "rollbacks_done", 1);
+        if by_id || !name_unique {
+            count(&mut self.counters, "rollbacks_by_id", 1);
+        } else {
+            count(&mut self.counters, "rollbacks_by_name", 1);
+        }
+        if newest_before != Some(label) {
+            count(&mut self.counters, "rollbacks_to_non_newest", 1);
+        }
+        if self.last_rb == Some(label) {
+            count(&mut self.counters, "rollbacks_repeated_same_target", 1);
+        }
+        self.last_rb = Some(label);
+
+        // ---- data: every observation query answers as recorded
+        let now = self.observe();
+        let (nonempty, sim_exact) = self.recs.get(&label).map(|r| (r.nonempty, r.sim_exact)).unwrap_or((false, true));
+        let mut seen: BTreeMap<String, (u64, String)> = BTreeMap::new();
+        let mut compared = 0u64;
+        if let Some(rec) = self.recs.get(&label) {
+            for (i, q) in self.queries.iter().enumerate() {
+                if q.class == "similar" && !sim_exact {
+                    continue; // recorded while an approximate index was live: not judged
+                }
+                compared += 1;
+                if let Some(nature) = differ(&rec.obs[i], &now[i], q.limit) {
+                    let class = if q.class == "similar" && self.hnsw_live { "similar-after-hnsw-cache-built-since-checkpoint" } else { q.class };
+                    let sig = format!("rollback{}:{}:{}", if self.cfg.qcache { "+query-cache" } else { "" }, class, nature);
+                    let e = seen.entry(sig).or_insert((0, String::new()));
+                    e.0 += 1;
+                    if e.1.is_empty() {
+                        e.1 = format!("`{}` answered {} right after `CHECKPOINT` cp{} and {} right after `{}`", q.text, short(&rec.obs[i]), label, short(&now[i]), text);
+                    }
+                }
+            }
+        }
+        count(&mut self.counters, "observation_answers_compared", compared);
+        if nonempty {
+            self.nontrivial_rollbacks += 1;
+            count(&mut self.counters, "rollbacks_after_writes", 1);
+        }
+        for (sig, (n, d)) in seen {
+            self.viol(sig, format!("{} ({} observation queries of this class/nature differ)", d, n));
+        }
+
+        // ---- checkpoint list: a rollback is not a retention event
+        count(&mut self.counters, "list_checks", 1);
+        match self.list() {
+            Err(e) => self.viol("checkpoints:list-failed", format!("CHECKPOINTS failed after `{}`: {}", text, e)),
+            Ok(post) => {
+                let pre_ids: BTreeSet<&String> = pre.iter().map(|l| &l.id).collect();
+                let post_ids: BTreeSet<&String> = post.iter().map(|l| &l.id).collect();
+                if pre_ids != post_ids {
+                    let d = format!(
+                        "CHECKPOINTS listed {:?} before `{}` (cp{}) and lists {:?} after it (newest first); no checkpoint was created in between and retention allows {}",
+                        names(&pre, &self.label_of),
+                        text,
+                        label,
+                        names(&post, &self.label_of),
+                        self.cfg.max_cp
+                    );
+                    // pre is newest first
+                    let tpos = pre.iter().position(|l| l.id == id).unwrap_or(0);
+                    let mut sigs: Vec<&str> = Vec::new();
+                    if !post_ids.contains(&id) {
+                        sigs.push("rollback:checkpoint-list:target-checkpoint-gone");
+                    }
+                    if pre.iter().take(tpos).any(|l| !post_ids.contains(&l.id)) {
+                        sigs.push("rollback:checkpoint-list:newer-checkpoints-gone");
+                    }
+                    if pre.iter().skip(tpos + 1).any(|l| !post_ids.contains(&l.id)) {
+                        sigs.push("rollback:checkpoint-list:older-checkpoints-gone");
+                    }
+                    if post.iter().any(|l| !pre_ids.contains(&l.id)) {
+                        sigs.push("rollback:checkpoint-list:unlisted-checkpoint-reappeared");
+                    }
+                    for s in sigs {
+                        self.viol(s, d.clone());
+                    }
+                } else {
+                    count(&mut self.counters, "list_unchanged_by_rollback", 1);
+                }
+                self.expected = post.iter().rev().cloned().collect();
+            }
+        }
+    }
+
+    // ---- writes that must work on a healthy database ------------------------------------------------
+
+    fn rows(&mut self, q: &str) -> Result<Vec<String>, String> {
+        match canon(&self.exec(q)) {
+            Ans::Items(v) => Ok(v),
+            Ans::Err(e) => Err(e),
+            Ans::Sim(_) => Err("similarity result".into()),
+        }
+    }
+
+    fn battery(&mut self) {
+        let n = self.bat_n;
+        self.bat_n += 1;
+        let ctx = match self.last_rb {
+            Some(l) => format!("after the last ROLLBACK TO cp{}:", l),
+            None => "(no rollback yet):".to_string(),
+        };
+        let pfx = if self.last_rb.is_some() { "post-rollback-write" } else { "write" };
+        macro_rules! bad {
+            ($kind:expr, $nature:expr, $($arg:tt)*) => {{
+                let d = format!($($arg)*);
+                self.viol(format!("{}:{}:{}", pfx, $kind, $nature), format!("{} {}", ctx, d));
+            }};
+        }
+        let mut checked = 0u64;
+        // ---------- relational
+        let tables: Vec<String> = match self.exec("SHOW TABLES") {
+            Ok(QueryResult::TableList(v)) => v,
+            other => {
+                bad!("show-tables", "failed", "SHOW TABLES gave {}", short(&canon(&other)));
+                vec![]
+            }
+        };
+        for (ti, t) in tables.iter().filter(|t| TABLES.contains(&t.as_str())).enumerate() {
+            let scan = format!("SELECT * FROM {}", t);
+            let before = match self.rows(&scan) {
+                Ok(v) => v,
+                Err(e) => {
+                    bad!("select", "listed-table-unreadable", "SHOW TABLES lists {} but `{}` fails: {}", t, scan, e);
+                    continue;
+                }
+            };
+            let va = 1000 + n as i64 * 10 + ti as i64;
+            let ins = format!("INSERT INTO {} (a, b) VALUES ({}, 'bat')", t, va);
+            let id = match self.exec(&ins) {
+                Ok(QueryResult::Ids(ids)) if ids.len() == 1 => ids[0],
+                other => {
+                    bad!("insert", "failed", "`{}` gave {}", ins, short(&canon(&other)));
+                    continue;
+                }
+            };
+            checked += 1;
+            let after = self.rows(&scan).unwrap_or_default();
+            let b: BTreeSet<&String> = before.iter().collect();
+            let a: BTreeSet<&String> = after.iter().collect();
+            let gone: Vec<&&String> = b.difference(&a).collect();
+            let new: Vec<&&String> = a.difference(&b).collect();
+            if !gone.is_empty() {
+                bad!("insert", "other-rows-changed", "`{}` returned id {}; rows {:?} present before are missing/changed afterwards; new rows {:?}", ins, id, gone, new);
+                continue;
+            }
+            let want_a = format!("a=Int({})", va);
+            if new.len() != 1 || !new[0].starts_with(&format!("{:08}|", id)) || !new[0].contains(&want_a) || !new[0].contains("b=String(\"bat\")") {
+                bad!("insert", "not-visible-by-scan", "`{}` returned id {}; `{}` shows new rows {:?}", ins, id, scan, new);
+                continue;
+            }
+            let new_row: String = (**new[0]).clone();
+            let eq = format!("SELECT * FROM {} WHERE a = {}", t, va);
+            let got = self.rows(&eq).unwrap_or_default();
+            if got.len() != 1 || got[0] != new_row {
+                bad!("insert", "not-visible-by-equality-select", "`{}` returned id {}; scan shows {:?} but `{}` gives {:?}", ins, id, new_row, eq, got);
+                continue;
+            }
+            let upd = format!("UPDATE {} SET b = 'bat2' WHERE a = {}", t, va);
+            match self.exec(&upd) {
+                Ok(QueryResult::Count(1)) => {
+                    let got = self.rows(&eq).unwrap_or_default();
+                    if got.len() != 1 || !got[0].contains("b=String(\"bat2\")") {
+                        bad!("update", "not-visible", "`{}` reported 1 row; `{}` gives {:?}", upd, eq, got);
+                    }
+                }
+                other => bad!("update", "failed", "`{}` gave {}", upd, short(&canon(&other))),
+            }
+            checked += 1;
+            if !self.cfg.auto_cp {
+                let del = format!("DELETE FROM {} WHERE a = {}", t, va);
+                match self.exec(&del) {
+                    Ok(QueryResult::Count(1)) => {
+                        let got = self.rows(&scan).unwrap_or_default();
+                        if got != before {
+                            bad!("delete", "table-not-as-before", "after `{}` + `{}` the table has {:?}, before {:?}", ins, del, got, before);
+                        }
+                    }
+                    other => bad!("delete", "failed", "`{}` gave {}", del, short(&canon(&other))),
+                }
+                checked += 1;
+            }
+        }
+        // ---------- DDL
+        {
+            let t = format!("bt{}", n);
+            let mk = format!("CREATE TABLE {} (a INT, b TEXT)", t);
+            match self.exec(&mk) {
+                Ok(_) => {
+                    let ins = format!("INSERT INTO {} (a, b) VALUES (1, 'x')", t);
+                    let r1 = self.exec(&ins);
+                    let ix = format!("CREATE INDEX ibt{} ON {} (a)", n, t);
+                    let r2 = self.exec(&ix);
+                    let got = self.rows(&format!("SELECT * FROM {} WHERE a = 1", t));
+                    let ok = matches!(r1, Ok(QueryResult::Ids(ref v)) if v.len() == 1) && r2.is_ok() && matches!(got, Ok(ref v) if v.len() == 1);
+                    if !ok {
+                        bad!("create-table", "new-table-not-usable", "`{}`; `{}` gave {}; `{}` gave {}; equality select gave {:?}", mk, ins, short(&canon(&r1)), ix, short(&canon(&r2)), got);
+                    }
+                    if !self.cfg.auto_cp {
+                        let dr = format!("DROP TABLE {}", t);
+                        if let Err(e) = self.exec(&dr) {
+                            bad!("drop-table", "failed", "`{}` failed: {}", dr, e);
+                        }
+                    }
+                }
+                Err(e) => bad!("create-table", "failed", "`{}` failed: {}", mk, e),
+            }
+            checked += 1;
+        }
+        if self.cfg.qcache {
+            count(&mut self.counters, "battery_writes_checked", checked);
+            self.mark_write();
+            return;
+        }
+        // ---------- graph
+        'graph: {
+            let nodes_before = match self.rows("NODE LIST") {
+                Ok(v) => v,
+                Err(e) => {
+                    bad!("node-list", "failed", "NODE LIST failed: {}", e);
+                    break 'graph;
+                }
+            };
+            let mk = format!("NODE CREATE thing {{name: 'bat{}'}}", n);
+            let id = match self.exec(&mk) {
+                Ok(QueryResult::Ids(ids)) if ids.len() == 1 => ids[0],
+                other => {
+                    bad!("node-create", "failed", "`{}` gave {}", mk, short(&canon(&other)));
+                    break 'graph;
+                }
+            };
+            self.node_hi = self.node_hi.max(id);
+            checked += 1;
+            let nodes_after = self.rows("NODE LIST").unwrap_or_default();
+            let b: BTreeSet<&String> = nodes_before.iter().collect();
+            let a: BTreeSet<&String> = nodes_after.iter().collect();
+            let gone: Vec<&&String> = b.difference(&a).collect();
+            let new: Vec<&&String> = a.difference(&b).collect();
+            if !gone.is_empty() {
+                bad!("node-create", "other-nodes-changed", "`{}` returned id {}; nodes {:?} listed before are missing/changed afterwards; new {:?}", mk, id, gone, new);
+                break 'graph;
+            }
+            let want = format!("{:08}|thing|name=bat{}", id, n);
+            if new.len() != 1 || **new[0] != want {
+                bad!("node-create", "not-visible", "`{}` returned id {}; NODE LIST shows new nodes {:?} (expected {:?})", mk, id, new, want);
+                break 'graph;
+            }
+            match self.rows(&format!("NODE GET {}", id)) {
+                Ok(v) if v == vec![want.clone()] => {}
+                other => bad!("node-create", "not-visible-by-get", "`{}` returned id {}; NODE GET {} gives {:?}", mk, id, id, other),
+            }
+            // an edge from an older node
+            let other_id: Option<u64> = nodes_before.first().and_then(|s| s.split('|').next()).and_then(|s| s.parse().ok());
+            if let Some(x) = other_id {
+                let edges_before = self.rows("EDGE LIST").unwrap_or_default();
+                let out_before = self.rows(&format!("NEIGHBORS {} OUTGOING", x)).unwrap_or_default();
+                let mk_e = format!("EDGE CREATE {} -> {} : knows {{w: 1}}", x, id);
+                match self.exec(&mk_e) {
+                    Ok(QueryResult::Ids(ids)) if ids.len() == 1 => {
+                        let e = ids[0];
+                        self.edge_hi = self.edge_hi.max(e);
+                        checked += 1;
+                        let edges_after = self.rows("EDGE LIST").unwrap_or_default();
+                        let b: BTreeSet<&String> = edges_before.iter().collect();
+                        let a: BTreeSet<&String> = edges_after.iter().collect();
+                        let gone: Vec<&&String> = b.difference(&a).collect();
+                        let new: Vec<&&String> = a.difference(&b).collect();
+                        let want = format!("{:08}|{}->{}|knows", e, x, id);
+                        if !gone.is_empty() {
+                            bad!("edge-create", "other-edges-changed", "`{}` returned id {}; edges {:?} listed before are missing/changed; new {:?}", mk_e, e, gone, new);
+                        } else if new.len() != 1 || **new[0] != want {
+                            bad!("edge-create", "not-visible", "`{}` returned id {}; EDGE LIST shows new edges {:?} (expected {:?})", mk_e, e, new, want);
+                        } else {
+                            let out_after = self.rows(&format!("NEIGHBORS {} OUTGOING", x)).unwrap_or_default();
+                            let inc = self.rows(&format!("NEIGHBORS {} INCOMING", id)).unwrap_or_default();
+                            let mut want_out = out_before.clone();
+                            want_out.push(format!("{:08}", id));
+                            want_out.sort();
+                            want_out.dedup();
+                            let mut got_out = out_after.clone();
+                            got_out.dedup();
+                            if got_out != want_out || inc != vec![format!("{:08}", x)] {
+                                bad!("edge-create", "not-visible-by-neighbors", "`{}`: NEIGHBORS {} OUTGOING was {:?}, is {:?}; NEIGHBORS {} INCOMING is {:?}", mk_e, x, out_before, out_after, id, inc);
+                            }
+                        }
+                    }
+                    other => bad!("edge-create", "failed", "`{}` (both nodes are listed by NODE LIST) gave {}", mk_e, short(&canon(&other))),
+                }
+            }
+        }
+        // ---------- vectors
+        'vec: {
+            let n0 = match self.exec("COUNT EMBEDDINGS") {
+                Ok(QueryResult::Count(c)) => c,
+                other => {
+                    bad!("count-embeddings", "failed", "COUNT EMBEDDINGS gave {}", short(&canon(&other)));
+                    break 'vec;
+                }
+            };
+            let mut rng = Rng::new(0xBA7 + n as u64);
+            let v = rand_vec(&mut rng, self.cfg.dim);
+            let key = format!("bat{}", n);
+            let st = format!("EMBED STORE '{}' {}", key, vec_text(&v));
+            if let Err(e) = self.do_stmt(&st) {
+                bad!("embed-store", "failed", "`{}…` failed: {}", st.chars().take(60).collect::<String>(), e);
+                break 'vec;
+            }
+            checked += 1;
+            match self.exec(&format!("EMBED GET '{}'", key)) {
+                Ok(QueryResult::Value(s)) => {
+                    let got: Vec<f32> = s.trim_matches(|c| c == '[' || c == ']').split(',').filter_map(|x| x.trim().parse().ok()).collect();
+                    if got.len() != v.len() || got.iter().zip(v.iter()).any(|(a, b)| !f32_same(*a, *b)) {
+                        bad!("embed-store", "read-back-differs", "stored {:?}, EMBED GET gives {:?}", &v[..v.len().min(8)], &got[..got.len().min(8)]);
+                    }
+                }
+                other => bad!("embed-store", "not-visible-by-get", "EMBED GET '{}' gave {}", key, short(&canon(&other))),
+            }
+            match self.exec("COUNT EMBEDDINGS") {
+                Ok(QueryResult::Count(c)) if c == n0 + 1 => {}
+                other => bad!("embed-store", "count-not-incremented", "COUNT EMBEDDINGS was {}, after storing the new key '{}' it gives {}", n0, key, short(&canon(&other))),
+            }
+            let sq = format!("SIMILAR '{}' LIMIT {}", key, n0 + 1);
+            match self.exec(&sq) {
+                Ok(QueryResult::Similar(rs)) if rs.iter().any(|r| r.key == key) => {}
+                other => bad!("embed-store", "not-found-by-similar", "`{}` (all {} embeddings fit the limit) gave {}", sq, n0 + 1, short(&canon(&other))),
+            }
+        }
+        count(&mut self.counters, "battery_writes_checked", checked);
+        self.mark_write();
+    }
+
+    fn run(&mut self, src: &mut dyn Source, deadline: Instant) {
+        loop {
+            if Instant::now() > deadline {
+                count(&mut self.counters, "case_deadline_stops", 1);
+                break;
+            }
+            let v = self.view();
+            let item = match src.next(&v) {
+                Some(i) => i,
+                None => break,
+            };
+            self.log.push(item.clone());
+            if self.trace {
+                eprintln!("[{}] {}", self.log.len() - 1, item.text().chars().take(200).collect::<String>());
+            }
+            match &item {
+                Item::S(s) => {
+                    let r = self.do_stmt(s);
+                    src.fed(&item, Some(&r));
+                    continue;
+                }
+                Item::Cp { label, named } => self.do_checkpoint(*label, *named),
+                Item::Rb { label, by_id } => self.do_rollback(*label, *by_id),
+                Item::Battery => self.battery(),
+                Item::Hnsw => {
+                    if self.router.vector().build_and_cache_index(vector_engine::HNSWConfig::default()).is_ok() {
+                        self.hnsw_live = true;
+                        count(&mut self.counters, "hnsw_caches_built", 1);
+                    }
+                }
+                Item::Sleep(ms) => std::thread::sleep(Duration::from_millis(*ms)),
+            }
+            src.fed(&item, None);
+        }
+    }
+}
+
+// ------------------------------------------------------------------------------------------------
+// generator
+// ------------------------------------------------------------------------------------------------
+
+#[derive(Clone, Default, Debug)]
+struct World {
+    tables: BTreeMap<String, (bool, bool)>, // name -> (has column c, index on a)
+    nodes: BTreeSet<u64>,
+    edges: BTreeMap<u64, (u64, u64)>,
+    keys: BTreeSet<String>,
+}
+
+#[derive(Clone, Copy, Debug, PartialEq)]
+enum Seg {
+    Phase(usize),
+    Cp,
+    Rb,
+    Battery,
+    Hnsw,
+    Sleep(u64),
+    /// retention part: roll back to every listed checkpoint, newest first
+    RbAllNewestFirst,
+}
+
+struct Gen {
+    rng: Rng,
+    cfg: Cfg,
+    world: World,
+    snaps: HashMap<u32, World>,
+    segs: Vec<Seg>,
+    seg_pos: usize,
+    left_in_phase: usize,
+    next_label: u32,
+    pending_rb: Vec<u32>,
+    last_rb: Option<u32>,
+}
+
+impl Gen {
+    fn new(rng: Rng, cfg: &Cfg, segs: Vec<Seg>) -> Gen {
+        Gen { rng, cfg: cfg.clone(), world: World::default(), snaps: HashMap::new(), segs, seg_pos: 0, left_in_phase: 0, next_label: 1, pending_rb: vec![], last_rb: None }
+    }
+    fn lit_b(&mut self) -> String {
+        match self.rng.below(5) {
+            0 => "'x'".into(),
+            1 => "'y'".into(),
+            2 => "'q'".into(),
+            3 => "'z'".into(),
+            _ => "NULL".into(),
+        }
+    }
+    fn some_table(&mut self, want_existing: bool) -> String {
+        let ex: Vec<String> = self.world.tables.keys().cloned().collect();
+        if want_existing && !ex.is_empty() && !self.rng.chance(1, 12) {
+            ex[self.rng.below(ex.len())].clone()
+        } else {
+            TABLES[self.rng.below(TABLES.len())].to_string()
+        }
+    }
+    fn some_node(&mut self) -> u64 {
+        let ex: Vec<u64> = self.world.nodes.iter().copied().collect();
+        if !ex.is_empty() && !self.rng.chance(1, 12) {
+            ex[self.rng.below(ex.len())]
+        } else {
+            1 + self.rng.below(NODE_MAX as usize) as u64
+        }
+    }
+
+    fn relational(&mut self, allow_destructive: bool) -> String {
+        let n_tables = self.world.tables.len();
+        let w = [if n_tables < 2 { 6 } else { 1 }, 1, 2, 1, 10, 4, 3, 2];
+        loop {
+            match self.rng.weighted(&w) {
+                0 => {
+                    let free: Vec<&str> = TABLES.iter().copied().filter(|t| !self.world.tables.contains_key(*t)).collect();
+                    let t = if free.is_empty() || self.rng.chance(1, 10) { TABLES[self.rng.below(4)] } else { free[self.rng.below(free.len())] };
+                    return if self.rng.bool() { format!("CREATE TABLE {} (a INT, b TEXT)", t) } else { format!("CREATE TABLE {} (a INT, b TEXT, c FLOAT)", t) };
+                }
+                1 => {
+                    if !allow_destructive {
+                        continue;
+                    }
+                    return format!("DROP TABLE {}", self.some_table(true));
+                }
+                2 => {
+                    let t = self.some_table(true);
+                    return format!("CREATE INDEX ix_{} ON {} (a)", t, t);
+                }
+                3 => return format!("DROP INDEX ON {}(a)", self.some_table(true)),
+                4 => {
+                    let t = self.some_table(true);
+                    let has_c = self.world.tables.get(&t).map_or(false, |x| x.0);
+                    let with_c = has_c && self.rng.chance(2, 3);
+                    let k = 1 + self.rng.below(3);
+                    let mut rows = Vec::new();
+                    for _ in 0..k {
+                        let a = self.rng.below(6);
+                        let b = self.lit_b();
+                        if with_c {
+                            rows.push(format!("({}, {}, {}.5)", a, b, self.rng.below(3)));
+                        } else {
+                            rows.push(format!("({}, {})", a, b));
+                        }
+                    }
+                    return format!("INSERT INTO {} ({}) VALUES {}", t, if with_c { "a, b, c" } else { "a, b" }, rows.join(", "));
+                }
+                5 => {
+                    let t = self.some_table(true);
+                    let v = self.rng.below(6);
+                    return match self.rng.below(3) {
+                        0 => format!("UPDATE {} SET b = {} WHERE a = {}", t, self.lit_b(), v),
+                        1 => format!("UPDATE {} SET a = {} WHERE a = {}", t, self.rng.below(6), v),
+                        _ => format!("UPDATE {} SET a = {} WHERE b = 'x'", t, v),
+                    };
+                }
+                6 => {
+                    if !allow_destructive {
+                        continue;
+                    }
+                    let t = self.some_table(true);
+                    return match self.rng.below(4) {
+                        0 => format!("DELETE FROM {}", t),
+                        1 => format!("DELETE FROM {} WHERE b = 'y'", t),
+                        _ => format!("DELETE FROM {} WHERE a = {}", t, self.rng.below(6)),
+                    };
+                }
+                _ => {
+                    // a read in exactly the form of an observation query (matters with the query cache)
+                    let qs = rel_queries();
+                    return qs[self.rng.below(qs.len())].text.clone();
+                }
+            }
+        }
+    }
+
+    fn graph(&mut self, allow_destructive: bool, view: &View) -> String {
+        let w = [7, 2, 7, 2, 1, 1, 1, 1, 1];
+        loop {
+            match self.rng.weighted(&w) {
+                0 => {
+                    if view.node_hi >= NODE_GEN_CAP {
+                        continue;
+                    }
+                    let l = LABELS[self.rng.below(3)];
+                    return format!("NODE CREATE {} {{name: 'n{}', n: {}}}", l, self.rng.below(6), self.rng.below(4));
+                }
+                1 => {
+                    if !allow_destructive {
+                        continue;
+                    }
+                    return format!("NODE DELETE {}", self.some_node());
+                }
+                2 => {
+                    if view.edge_hi >= EDGE_GEN_CAP {
+                        continue;
+                    }
+                    if self.world.nodes.is_empty() && !self.rng.chance(1, 6) {
+                        continue;
+                    }
+                    let (a, b) = (self.some_node(), self.some_node());
+                    return format!("EDGE CREATE {} -> {} : {} {{w: {}}}", a, b, ETYPES[self.rng.below(2)], self.rng.below(5));
+                }
+                3 => {
+                    if !allow_destructive {
+                        continue;
+                    }
+                    let ex: Vec<u64> = self.world.edges.keys().copied().collect();
+                    let e = if !ex.is_empty() && !self.rng.chance(1, 10) { ex[self.rng.below(ex.len())] } else { 1 + self.rng.below(EDGE_MAX as usize) as u64 };
+                    return format!("EDGE DELETE {}", e);
+                }
+                4 => return "CONSTRAINT CREATE uq ON NODE person PROPERTY name UNIQUE".into(),
+                5 => return "CONSTRAINT DROP uq".into(),
+                6 => return "GRAPH INDEX CREATE ON NODE PROPERTY name".into(),
+                7 => return "GRAPH INDEX DROP ON NODE PROPERTY name".into(),
+                _ => return format!("NEIGHBORS {} OUTGOING", self.some_node()),
+            }
+        }
+    }
+
+    fn vector(&mut self, allow_destructive: bool) -> String {
+        let w = [8, 2, 1, 1];
+        loop {
+            match self.rng.weighted(&w) {
+                0 => {
+                    let v = rand_vec(&mut self.rng, self.cfg.dim);
+                    return format!("EMBED STORE 'k{}' {}", self.rng.below(NKEYS), vec_text(&v));
+                }
+                1 => {
+                    if !allow_destructive {
+                        continue;
+                    }
+                    let ex: Vec<String> = self.world.keys.iter().cloned().collect();
+                    let k = if !ex.is_empty() && !self.rng.chance(1, 8) { ex[self.rng.below(ex.len())].clone() } else { format!("k{}", self.rng.below(NKEYS)) };
+                    return format!("EMBED DELETE '{}'", k);
+                }
+                2 => {
+                    let items: Vec<String> = (0..1 + self.rng.below(3))
+                        .map(|_| {
+                            let v = rand_vec(&mut self.rng, self.cfg.dim);
+                            format!("('k{}', {})", self.rng.below(NKEYS), vec_text(&v))
+                        })
+                        .collect();
+                    return format!("EMBED BATCH [{}]", items.join(", "));
+                }
+                _ => return format!("SIMILAR 'k{}' LIMIT 4", self.rng.below(NKEYS)),
+            }
+        }
+    }
+
+    fn stmt(&mut self, view: &View) -> String {
+        // every destructive statement makes an automatic checkpoint when they are enabled
+        let allow_destructive = !self.cfg.auto_cp || (view.cps_total + 3 < CP_TOTAL_CAP && self.rng.chance(1, 3));
+        if self.cfg.qcache {
+            return self.relational(allow_destructive);
+        }
+        match self.rng.weighted(&[5, 4, 3]) {
+            0 => self.relational(allow_destructive),
+            1 => self.graph(allow_destructive, view),
+            _ => self.vector(allow_destructive),
+        }
+    }
+}
+
+impl Source for Gen {
+    fn next(&mut self, view: &View) -> Option<Item> {
+        loop {
+            if self.left_in_phase > 0 {
+                self.left_in_phase -= 1;
+                return Some(Item::S(self.stmt(view)));
+            }
+            if let Some(l) = self.pending_rb.pop() {
+                if view.listed_labels.contains(&l) {
+                    self.last_rb = Some(l);
+                    return Some(Item::Rb { label: l, by_id: self.rng.bool() });
+                }
+                continue;
+            }
+            let seg = *self.segs.get(self.seg_pos)?;
+            self.seg_pos += 1;
+            match seg {
+                Seg::Phase(n) => self.left_in_phase = n,
+                Seg::Cp => {
+                    if view.cps_total + 1 >= CP_TOTAL_CAP {
+                        continue;
+                    }
+                    let label = self.next_label;
+                    self.next_label += 1;
+                    return Some(Item::Cp { label, named: self.cfg.strict_retention || self.rng.chance(2, 3) });
+                }
+                Seg::Rb => {
+                    if view.listed_labels.is_empty() {
+                        continue;
+                    }
+                    let any = view.listed_labels[self.rng.below(view.listed_labels.len())];
+                    let l = match self.rng.below(4) {
+                        0 | 1 => view.newest_label.unwrap_or(any),
+                        2 => self.last_rb.filter(|l| view.listed_labels.contains(l)).unwrap_or(any),
+                        _ => any,
+                    };
+                    self.last_rb = Some(l);
+                    return Some(Item::Rb { label: l, by_id: self.rng.bool() });
+                }
+                Seg::RbAllNewestFirst => {
+                    // popped from the back; listed_labels is oldest first
+                    self.pending_rb = view.listed_labels.clone();
+                }
+                Seg::Battery => return Some(Item::Battery),
+                Seg::Hnsw => return Some(Item::Hnsw),
+                Seg::Sleep(ms) => return Some(Item::Sleep(ms)),
+            }
+        }
+    }
+
+    fn fed(&mut self, item: &Item, res: Option<&Result<QueryResult, String>>) {
+        match item {
+            Item::Cp { label, .. } => {
+                self.snaps.insert(*label, self.world.clone());
+            }
+            Item::Rb { label, .. } => {
+                if let Some(w) = self.snaps.get(label) {
+                    self.world = w.clone();
+                }
+            }
+            Item::S(s) => {
+                let Some(Ok(q)) = res else { return };
+                let up = s.to_ascii_uppercase();
+                let word = |i: usize| s.split_whitespace().nth(i).unwrap_or("").to_string();
+                if up.starts_with("CREATE TABLE") {
+                    self.world.tables.insert(word(2), (up.contains("FLOAT"), false));
+                } else if up.starts_with("DROP TABLE") {
+                    self.world.tables.remove(&word(2));
+                } else if up.starts_with("CREATE INDEX") {
+                    if let Some(t) = self.world.tables.get_mut(&word(4)) {
+                        t.1 = true;
+                    }
+                } else if up.starts_with("NODE CREATE") {
+                    if let QueryResult::Ids(ids) = q {
+                        self.world.nodes.extend(ids.iter().copied());
+                    }
+                } else if up.starts_with("NODE DELETE") {
+                    if let Ok(id) = word(2).parse::<u64>() {
+                        self.world.nodes.remove(&id);
+                        self.world.edges.retain(|_, (a, b)| *a != id && *b != id);
+                    }
+                } else if up.starts_with("EDGE CREATE") {
+                    if let QueryResult::Ids(ids) = q {
+                        let a = word(2).parse().unwrap_or(0);
+                        let b = word(4).parse().unwrap_or(0);
+                        for e in ids {
+                            self.world.edges.insert(*e, (a, b));
+                        }
+                    }
+                } else if up.starts_with("EDGE DELETE") {
+                    if let Ok(id) = word(2).parse::<u64>() {
+                        self.world.edges.remove(&id);
+                    }
+                } else if up.starts_with("EMBED STORE") {
+                    self.world.keys.insert(word(2).trim_matches('\'').to_string());
+                } else if up.starts_with("EMBED DELETE") {
+                    self.world.keys.remove(word(2).trim_matches('\''));
+                } else if up.starts_with("EMBED BATCH") {
+                    for part in s.split("('").skip(1) {
+                        if let Some(k) = part.split('\'').next() {
+                            self.world.keys.insert(k.to_string());
+                        }
+                    }
+                }
+            }
+            _ => {}
+        }
+    }
+}
+
+fn phase_len(rng: &mut Rng, small: bool) -> usize {
+    if small {
+        rng.below(9)
+    } else {
+        match rng.below(6) {
+            0 => rng.below(4),
+            1 | 2 => 4 + rng.below(10),
+            3 | 4 => 10 + rng.below(16),
+            _ => 25 + rng.below(16),
+        }
+    }
+}
+
+fn cycle_plan(rng: &mut Rng, cfg: &Cfg) -> Vec<Seg> {
+    let mut segs = vec![Seg::Phase(phase_len(rng, false))];
+    let mut cps_left = 1 + rng.below(4);
+    while cps_left > 0 {
+        segs.push(Seg::Cp);
+        cps_left -= 1;
+        segs.push(Seg::Phase(phase_len(rng, false)));
+        if cps_left > 0 && rng.bool() {
+            segs.push(Seg::Cp);
+            cps_left -= 1;
+            segs.push(Seg::Phase(phase_len(rng, false)));
+        }
+        if cfg.hnsw && rng.chance(2, 3) {
+            segs.push(Seg::Hnsw);
+            if rng.bool() {
+                segs.push(Seg::Phase(rng.below(3)));
+            }
+        }
+        segs.push(Seg::Rb);
+        if rng.chance(4, 5) {
+            segs.push(Seg::Battery);
+        }
+        segs.push(Seg::Phase(phase_len(rng, true)));
+        if rng.chance(2, 5) {
+            segs.push(Seg::Rb);
+            if rng.bool() {
+                segs.push(Seg::Battery);
+            }
+            segs.push(Seg::Phase(phase_len(rng, true)));
+        }
+    }
+    if rng.bool() {
+        segs.push(Seg::Rb);
+        segs.push(Seg::Battery);
+    }
+    segs
+}
+
+fn retention_plan(rng: &mut Rng, cfg: &Cfg) -> Vec<Seg> {
+    let m = 1 + rng.below(2);
+    let mut segs = vec![Seg::Phase(3 + rng.below(5))];
+    for _ in 0..cfg.max_cp + m {
+        segs.push(Seg::Cp);
+        segs.push(Seg::Sleep(1100));
+        segs.push(Seg::Phase(2 + rng.below(5)));
+    }
+    segs.push(Seg::RbAllNewestFirst);
+    segs.push(Seg::Battery);
+    segs
+}
+
+fn cycle_cfg(rng: &mut Rng) -> Cfg {
+    let variant = rng.below(20);
+    Cfg {
+        auto_cp: rng.chance(1, 4),
+        qcache: variant < 2,
+        dim: if rng.chance(1, 6) { 384 } else { 4 },
+        max_cp: 100,
+        strict_retention: false,
+        hnsw: (2..5).contains(&variant),
+    }
+}
+
+fn retention_cfg(rng: &mut Rng) -> Cfg {
+    Cfg { auto_cp: false, qcache: false, dim: 4, max_cp: 1 + rng.below(3), strict_retention: true, hnsw: false }
+}
+
+// ------------------------------------------------------------------------------------------------
+// one case, shrinking, reporting
+// ------------------------------------------------------------------------------------------------
+
+struct Outcome {
+    viols: Vec<Viol>,
+    counters: BTreeMap<String, u64>,
+    log: Vec<Item>,
+    nontrivial: bool,
+    setup_error: Option<String>,
+}
+
+fn run_script(cfg: &Cfg, src: &mut dyn Source, trace: bool, max_wall: Duration) -> Outcome {
+    let mut r = match Runner::new(cfg, trace) {
+        Ok(r) => r,
+        Err(e) => return Outcome { viols: vec![], counters: BTreeMap::new(), log: vec![], nontrivial: false, setup_error: Some(e) },
+    };
+    r.run(src, Instant::now() + max_wall);
+    Outcome { nontrivial: r.nontrivial_rollbacks > 0, viols: r.viols, counters: r.counters, log: r.log, setup_error: None }
+}
+
+fn reproduces(cfg: &Cfg, items: &[Item], sig: &str) -> Option<Viol> {
+    let mut src = Fixed { items: items.to_vec(), pos: 0 };
+    let o = run_script(cfg, &mut src, false, Duration::from_secs(60));
+    o.viols.into_iter().find(|v| v.sig == sig)
+}
+
+/// delta debugging on the item list (checkpoint labels keep their meaning; a rollback whose checkpoint
+/// was removed is skipped by the runner)
+fn shrink(cfg: &Cfg, items: Vec<Item>, sig: &str, max_runs: usize, max_wall: Duration) -> (Vec<Item>, Option<Viol>) {
+    let t0 = Instant::now();
+    let mut cur = items;
+    let mut best: Option<Viol> = None;
+    let mut n = 2usize;
+    let mut runs = 0usize;
+    while cur.len() >= 2 && runs < max_runs && t0.elapsed() < max_wall {
+        let chunk = (cur.len() + n - 1) / n;
+        let mut reduced = false;
+        let mut start = 0;
+        while start < cur.len() {
+            let end = (start + chunk).min(cur.len());
+            let cand: Vec<Item> = cur[..start].iter().chain(cur[end..].iter()).cloned().collect();
+            runs += 1;
+            if let Some(v) = reproduces(cfg, &cand, sig) {
+                cur = cand;
+                cur.truncate(v.at + 1);
+                best = Some(v);
+                n = n.saturating_sub(1).max(2);
+                reduced = true;
+                break;
+            }
+            if runs >= max_runs || t0.elapsed() >= max_wall {
+                break;
+            }
+            start = end;
+        }
+        if !reduced {
+            if n >= cur.len() {
+                break;
+            }
+            n = (n * 2).min(cur.len());
+        }
+    }
+    (cur, best)
+}
+
+fn script_text(items: &[Item]) -> String {
+    items.iter().map(|i| i.text().chars().take(240).collect::<String>()).collect::<Vec<_>>().join("\n  ")
+}
+
+fn cfg_text(cfg: &Cfg) -> String {
+    format!(
+        "router: QueryRouter::new() + init_blob() + init_checkpoint_with_config(max_checkpoints={}, auto_checkpoint={}){}",
+        cfg.max_cp,
+        cfg.auto_cp,
+        if cfg.qcache { " + init_cache()" } else { "" }
+    )
+}
+
+fn report_outcome(part: &str, case_seed: u64, cfg: &Cfg, o: Outcome, report: &mut Report, do_shrink: bool) {
+    if let Some(e) = o.setup_error {
+        report.inconclusive(&format!("router set-up failed: {}", first_line(&e)));
+        return;
+    }
+    for (k, v) in &o.counters {
+        report.count(k, *v);
+    }
+    let texts: Vec<String> = o.log.iter().map(|i| i.text()).collect();
+    let h = hash_str(&texts.join("\n"));
+    report.eval(h, o.nontrivial);
+    report.count(&format!("cases[{}]", part), 1);
+    if cfg.auto_cp {
+        report.count("cases_with_auto_checkpoints", 1);
+    }
+    if cfg.qcache {
+        report.count("cases_with_query_cache", 1);
+    }
+    if cfg.hnsw {
+        report.count("cases_with_hnsw_cache", 1);
+    }
+    if cfg.dim == 384 {
+        report.count("cases_with_384_dim_vectors", 1);
+    }
+    if o.viols.is_empty() {
+        if report.want_sample() && o.nontrivial && o.log.len() < 60 {
+            let short_texts: Vec<String> = texts.iter().map(|t| t.chars().take(120).collect()).collect();
+            report.sample(json!({"part": part, "case_seed": case_seed, "config": cfg_text(cfg), "script": short_texts, "outcome": "every rollback reproduced its recorded observation vector"}));
+        }
+        return;
+    }
+    let mut done: BTreeSet<String> = BTreeSet::new();
+    for v in &o.viols {
+        if !done.insert(v.sig.clone()) {
+            report.count(&format!("violations_same_case[{}]", v.sig), 1);
+            continue;
+        }
+        let already = report.violations.iter().filter(|x| x.signature == v.sig).count();
+        let mut items: Vec<Item> = o.log[..(v.at + 1).min(o.log.len())].to_vec();
+        let mut viol = v.clone();
+        if do_shrink && already < 2 && !cfg.strict_retention {
+            let (small, best) = shrink(cfg, items.clone(), &v.sig, 80, Duration::from_secs(25));
+            if let Some(b) = best {
+                items = small;
+                viol = b;
+                report.count("witnesses_shrunk", 1);
+            }
+        }
+        let shown = if items.len() > 70 { format!("(… {} earlier items, see replay …)\n  {}", items.len() - 70, script_text(&items[items.len() - 70..])) } else { script_text(&items) };
+        report.violation(
+            viol.sig.clone(),
+            format!("{}\n{}\nscript ({} items):\n  {}", viol.detail, cfg_text(cfg), items.len(), shown),
+            json!({"part": part, "case_seed": case_seed, "cfg": cfg, "script": items}),
+        );
+    }
+}
+
+fn cycle_case(case_seed: u64, report: &mut Report, trace: bool) {
+    let mut rng = Rng::new(case_seed);
+    let cfg = cycle_cfg(&mut rng);
+    let segs = cycle_plan(&mut rng, &cfg);
+    let mut g = Gen::new(rng.fork(1), &cfg, segs);
+    let o = run_script(&cfg, &mut g, trace, Duration::from_secs(120));
+    report_outcome("cycle", case_seed, &cfg, o, report, !trace);
+}
+
+fn retention_case(case_seed: u64, report: &mut Report, trace: bool) {
+    let mut rng = Rng::new(case_seed);
+    let cfg = retention_cfg(&mut rng);
+    let segs = retention_plan(&mut rng, &cfg);
+    let mut g = Gen::new(rng.fork(2), &cfg, segs);
+    let o = run_script(&cfg, &mut g, trace, Duration::from_secs(180));
+    if let Some(n) = o.counters.get("checkpoints_created") {
+        report.count("retention_creations", *n);
+    }
+    report_outcome("retention", case_seed, &cfg, o, report, false);
 }
 
 fn main() {
-    let mut r = QueryRouter::new();
-    r.init_blob().unwrap();
-    r.init_checkpoint_with_config(CheckpointConfig::default().with_auto_checkpoint(false)).unwrap();
-    for s in [
-        "CREATE TABLE t (a INT, b TEXT)",
-        "CREATE INDEX ia ON t (a)",
-        "CREATE TABLE u (a INT, b TEXT)",
-        "INSERT INTO t (a, b) VALUES (1, 'x')",
-        "INSERT INTO t (a, b) VALUES (2, 'y')",
-        "INSERT INTO u (a, b) VALUES (1, 'x')",
-        "NODE CREATE person {name: 'a'}",
-        "NODE CREATE person {name: 'b'}",
-        "EDGE CREATE 1 -> 2 : knows {w: 1}",
-        "EMBED STORE 'k1' [1.0, 0.0, 0.0]",
-        "EMBED STORE 'k2' [0.0, 1.0, 0.0]",
-        "CHECKPOINT 'c1'",
-        "CHECKPOINTS",
-        "SELECT * FROM t",
-        "SELECT * FROM t WHERE a = 2",
-        "NODE GET 1",
-        "NODE LIST",
-        "NODE LIST person",
-        "EDGE LIST",
-        "FIND NODE person",
-        "NEIGHBORS 1 OUTGOING",
-        "EMBED GET 'k1'",
-        "SIMILAR [1.0, 0.1, 0.0] LIMIT 3",
-        "SHOW TABLES",
-        "COUNT EMBEDDINGS",
-        "SHOW EMBEDDINGS",
-        // after
-        "INSERT INTO t (a, b) VALUES (3, 'z')",
-        "DELETE FROM t WHERE a = 1",
-        "UPDATE t SET b = 'q' WHERE a = 2",
-        "DROP TABLE u",
-        "CREATE TABLE w (a INT)",
-        "NODE CREATE person {name: 'c'}",
-        "EDGE CREATE 1 -> 3 : knows {w: 2}",
-        "NODE DELETE 2",
-        "EMBED STORE 'k3' [0.9, 0.1, 0.0]",
-        "EMBED DELETE 'k1'",
-        "CHECKPOINT 'c2'",
-        "CHECKPOINTS",
-        "ROLLBACK TO 'c1'",
-        "CHECKPOINTS",
-        "SELECT * FROM t",
-        "SELECT * FROM t WHERE a = 2",
-        "SELECT * FROM t WHERE a = 1",
-        "SELECT * FROM t WHERE a = 3",
-        "SELECT * FROM u",
-        "SELECT * FROM w",
-        "SHOW TABLES",
-        "NODE GET 1",
-        "NODE GET 2",
-        "NODE GET 3",
-        "NODE LIST",
-        "NODE LIST person",
-        "EDGE LIST",
-        "FIND NODE person",
-        "NEIGHBORS 1 OUTGOING",
-        "EMBED GET 'k1'",
-        "EMBED GET 'k3'",
-        "SIMILAR [1.0, 0.1, 0.0] LIMIT 3",
-        "COUNT EMBEDDINGS",
-        "INSERT INTO t (a, b) VALUES (4, 'n')",
-        "SELECT * FROM t",
-        "SELECT * FROM t WHERE a = 4",
-        "NODE CREATE person {name: 'd'}",
-        "EDGE CREATE 1 -> 2 : likes {w: 3}",
-        "NEIGHBORS 1 OUTGOING",
-        "EMBED STORE 'k9' [0.5, 0.5, 0.0]",
-        "CHECKPOINT 'c3'",
-        "CHECKPOINTS",
-        "ROLLBACK TO 'c2'",
-        "ROLLBACK TO 'c1'",
-    ] {
-        run(&r, s);
+    let args = Args::parse();
+    let started = Instant::now();
+    quiet_panics();
+    let mut total = Report::new();
+    total.max_samples = 4;
+
+    if let Some(p) = &args.replay {
+        let v: Value = serde_json::from_str(&std::fs::read_to_string(p).expect("replay file")).expect("json");
+        let rp = &v["replay"];
+        let part = rp["part"].as_str().unwrap_or("cycle").to_string();
+        let seed = rp["case_seed"].as_u64().unwrap_or(0);
+        let script: Option<Vec<Item>> = serde_json::from_value(rp["script"].clone()).ok();
+        let cfg: Option<Cfg> = serde_json::from_value(rp["cfg"].clone()).ok();
+        match (script, cfg) {
+            (Some(items), Some(cfg)) if !items.is_empty() && args.extra.get("whole-case").is_none() => {
+                eprintln!("replaying the recorded script ({} items); {}", items.len(), cfg_text(&cfg));
+                let mut src = Fixed { items, pos: 0 };
+                let o = run_script(&cfg, &mut src, true, Duration::from_secs(600));
+                report_outcome(&part, seed, &cfg, o, &mut total, false);
+            }
+            _ => {
+                eprintln!("replaying whole case part={} case_seed={}", part, seed);
+                if part == "retention" {
+                    retention_case(seed, &mut total, true)
+                } else {
+                    cycle_case(seed, &mut total, true)
+                }
+            }
+        }
+    } else {
+        let n_cycle = args.by_tier(260u64, 6_000u64);
+        let n_ret = args.by_tier(10u64, 80u64);
+        let stride = n_cycle / n_ret;
+        let n_total = n_cycle + n_ret;
+        let rep = par_cases(args.threads, args.seed, n_total, args.budget(75, 900), |i, s, r| {
+            // retention cases (which mostly sleep) are spread evenly among the others
+            if i % (stride + 1) == stride / 2 {
+                retention_case(s, r, false)
+            } else {
+                cycle_case(s, r, false)
+            }
+        });
+        total.merge(rep);
     }
+
+    let meta = Meta {
+        property: "C08",
+        rule: "one evaluation = one program run on a fresh QueryRouter (blob + checkpoint manager initialised): <=40 random relational/graph/vector statements per phase, 1-4 manual checkpoints (named or unnamed; plus automatic ones before destructive statements in a quarter of the cases), 1-6 rollbacks to any still-listed checkpoint by id or by name, must-work write batteries, further phases and cycles. At every CHECKPOINT the observation vector (about 330 read statements through execute_parsed: per-table scan/equality/range/count selects over 4 tables with and without index, NODE GET/NEIGHBORS/EDGE GET for ids 1..48, NODE/EDGE LIST, FIND, graph constraints and indexes, EMBED GET, SIMILAR by vector in 3 metrics and by key, COUNT/SHOW EMBEDDINGS) is recorded and must be answered identically right after ROLLBACK TO that checkpoint; CHECKPOINTS must list the same set before and after a rollback. Retention part: max N in 1..3, N+1..N+2 named checkpoints created >= 1.1 s apart, listed set checked after every creation, then every retained checkpoint rolled back to (newest first). Distinct by the hash of the executed statement texts; non-trivial if at least one rollback was compared whose checkpoint was followed by a successful write.",
+        assumptions: vec![
+            "set-valued answers (rows, node/edge lists, neighbour ids, key lists) are compared as sets; SIMILAR answers on exact scores and on keys except inside a score tie cut by LIMIT".into(),
+            "checkpoint creation stamps have 1 s granularity: the retention oracle only judges creations >= 1.1 s apart; in all other programs max_checkpoints = 100 so retention never acts".into(),
+            "SIMILAR answers recorded while an HNSW cache built by the harness was live are approximate and are not compared".into(),
+            "with the router's query cache on, only relational statements are issued (graph/vector writes never invalidate that cache, which is outside this property)".into(),
+            "programs are capped at 9 checkpoints in total because every checkpoint image embeds all earlier images (size doubles per checkpoint)".into(),
+        ],
+        floors: if args.replay.is_some() {
+            vec![]
+        } else {
+            vec![
+                ("distinct_nontrivial", args.by_tier(40, 800)),
+                ("rollbacks_done", args.by_tier(80, 1600)),
+                ("observation_answers_compared", args.by_tier(20_000, 400_000)),
+                ("battery_writes_checked", args.by_tier(200, 4_000)),
+                ("retention_creations", args.by_tier(6, 60)),
+                ("write_statements_ok", args.by_tier(1_000, 20_000)),
+            ]
+        },
+        exhaustive: false,
+    };
+    write_result(&args, &meta, &total, started);
 }
